@@ -156,7 +156,7 @@ class Flow:
         """Leaf alternatives of expression `e` evaluated at node `n` (guards are relative to the function entry)."""
         seen = _seen if _seen is not None else set()
         base = [(g.src.ast, g.label == 'T') for g in self.guards_of(n)]
-        return [Alt(a.expr, _dedup(base + a.guards), a.node, a.names, a.built_def) for a in self._alts(n, e, _depth, seen, boolops)]
+        return [Alt(a.expr, _dedup(expand_flag_guards(self.cfg.func, base + a.guards)), a.node, a.names, a.built_def) for a in self._alts(n, e, _depth, seen, boolops)]
 
     def _alts(self, n: Node, e: ast.expr, depth: int, seen: Set[Tuple[int, str]], boolops: bool) -> List[Alt]:
         if depth > 8:
@@ -278,7 +278,21 @@ class Flow:
                 # map(F, X): one F(x) per element of X, in order
                 tgt = ast.copy_location(ast.Name(id='_elt', ctx=ast.Store()), e)
                 call = ast.copy_location(ast.Call(func=e.args[0], args=[ast.copy_location(ast.Name(id='_elt', ctx=ast.Load()), e)], keywords=[]), e)
-                return [SeqSrc('iter', iter=e.args[1], target=tgt, elt=[Alt(call, [], n)], total=True, guards=a.guards, node=n, lazy=True, comp=e)]
+                elt_expr: ast.expr = call
+                # map(helper, xs) with an expression-like repo helper: the element is the helper's expression
+                try:
+                    from .inline import _Inliner
+                    from .model import FuncInfo as _FI
+                    ent = self.cfg.prog.resolve(self.cfg.func.module, e.args[0])
+                    if isinstance(ent, _FI) and ent.cls is None:
+                        inl = _Inliner(self.cfg.prog, self.cfg.func, set(), [], False)
+                        ex = inl._as_expression(call, ent, False)
+                        if ex is not None:
+                            elt_expr = ex
+                except Exception:
+                    elt_expr = call
+                return [SeqSrc('iter', iter=e.args[1], target=tgt, elt=[Alt(x.expr, x.guards, n) for x in _expand_ifexp(elt_expr)], total=True,
+                               guards=a.guards, node=n, lazy=True, comp=e)]
             if fn in ('filter',) and len(e.args) == 2:
                 inner = self.seq(n, e.args[1], depth + 1)
                 for s in inner:
@@ -452,6 +466,24 @@ def _is_empty_container(v: ast.expr) -> bool:
 
 def _cond_guards(c: ast.expr, pol: bool) -> List[Guard]:
     """Decompose a condition known to be `pol` into atomic guards where that is exact."""
+    return _cond_guards0(c, pol)
+
+
+def expand_flag_guards(f, guards: List[Guard]) -> List[Guard]:
+    """Replace guards on a boolean flag local (`has_ctx = name is not None`, assigned once) by the guards of its defining
+    condition, decomposed where exact."""
+    from .util import _flag_expr
+    out: List[Guard] = []
+    for c, p in guards:
+        fe = _flag_expr(f, c) if f is not None else None
+        if fe is not None:
+            out += expand_flag_guards(f, _cond_guards0(fe, p))
+        else:
+            out.append((c, p))
+    return out
+
+
+def _cond_guards0(c: ast.expr, pol: bool) -> List[Guard]:
     if isinstance(c, ast.UnaryOp) and isinstance(c.op, ast.Not):
         return _cond_guards(c.operand, not pol)
     if isinstance(c, ast.BoolOp):
